@@ -1,5 +1,6 @@
 """Registry: for each property, which correspondences, oracles and budgets make up its check."""
 from . import i3_card, i1_logic, i5_comb, i4_text
+from . import oracles_design as OD
 
 TB_COMMON = [
     "Lean 4.33.0 kernel (thorough tier: re-checked with leanchecker)",
@@ -23,7 +24,35 @@ def _replay28(ctx, r):
             ctx.fail("C28: " + x, r)
 
 
+TB_DESIGN = TB_COMMON + [
+    "SPModel.Spec (the reference semantics) is my reading of the documentation; the generator stays inside the regions where the documentation defines the meaning (DESIGN.md 3.2)",
+    "SAT back ends (pycryptosat, pycmsgen, pyunigen) return models of the formula they are given",
+]
+
+
+def _design_prop(oracle, quick=60, thorough=600, extra_assumptions=()):
+    return {
+        "correspondence": [],
+        "oracle": [oracle],
+        "oracle_budget": {"quick": quick, "thorough": thorough},
+        "search_budget": 120,
+        "replay": OD.replay_design,
+        "trusted_base": TB_DESIGN,
+        "assumptions": ["designs come from the bounded generator of harness/i12_oracle.py (<= 3 simple factors, <= 2 derived, <= ~8 trials)"] + list(extra_assumptions),
+    }
+
+
 REGISTRY = {
+    "C01": _design_prop(OD.oracle_c01),
+    "C02": _design_prop(OD.oracle_c02),
+    "C03": _design_prop(OD.oracle_c03),
+    "C04": _design_prop(OD.oracle_c04),
+    "C06": _design_prop(OD.oracle_c06),
+    "C07": _design_prop(OD.oracle_c07),
+    "C08": _design_prop(OD.oracle_c08),
+    "C09": _design_prop(OD.oracle_c09),
+    "C16": _design_prop(OD.oracle_c16),
+    "C17": _design_prop(OD.oracle_c17),
     "C27": {
         "correspondence": [i4_text.corr_text],
         "oracle": [i4_text.oracle_c27],
